@@ -57,7 +57,8 @@ RULE = ('server: Hypothesis-generated batches of pipelined SFTP requests '
         'arbitrary field subsets projected to each version; statvfs/limits/'
         'ranges records. Non-trivial = a malformed request body, or >=2 '
         'requests pipelined (server), or k>=2 answered in a non-identity '
-        'order or a wrong-type/unknown/duplicate reply (client), or >=3 '
+        'order or a wrong-type/unknown/duplicate reply or a reply to a '
+        'caller the application has cancelled (client), or >=3 '
         'attribute flags (codecs); distinct = canonical JSON of the case.')
 ASSUMPTIONS = ['vf/engines/sftpwire.py transcribes the filexfer drafts '
                '-02/-04/-05/-13 and OpenSSH PROTOCOL correctly (v5 ATTR_BITS '
